@@ -758,21 +758,43 @@ def _legacy(run, repo, world, folder):
            "send-twice delay, two frame bytes, 0) expected; %s" % detail,
            where(mod, fn))
     _legacy_hasseb_extract(run, repo, world, folder, c[0])
-    # UniPi
+    # UniPi: the register pair per case, by evaluating construct()
     mod = repo.mod(UNI)
     o, fn = _m(world, UNI + ".UnipiDALIDriver", "construct")
-    tw = folder.eval(ast.parse("DA_OPT_TWICE", mode="eval").body, {}, UNI)
-    vals = {unparse(v) for vs in astq.stores(fn).values() for v in vs
-            if not isinstance(v, ast.AugAssign)}
-    augs = [v for vs in astq.stores(fn).values() for v in vs if isinstance(
-        v, ast.AugAssign) and isinstance(v.op, ast.BitOr) and unparse(
-            v.value) == "DA_OPT_TWICE"]
-    run.ob("R-WIRE-LEGACY", UNI + ".UnipiDALIDriver.construct",
-           {"opt << 8", "ad << 8 | cm1", "opt << 8 | ad",
-            "cm1 << 8 | cm2"} <= vals and len(augs) == 2 and
-           isinstance(tw, int) and astq.raises(fn, "ValueError"),
-           "register pair layout / send-twice option / refusal changed",
-           where(mod, fn))
+    from ..wireval import Word
+    usp = _spec("hid.json")["unipi_registers"]
+    uc = world.cls(UNI + ".UnipiDALIDriver")
+    okq = True
+    detail = ""
+    for nbu in (1, 2, 3, 4):
+        for tw in (False, True):
+            case = {"nbytes": nbu, "nbits": 8 * nbu, "sendtwice": tw,
+                    "response": None}
+            r = WireEval(world, folder, uc, case).run(
+                fn, {"self": SelfObj(uc), "command": CmdObj(case)})
+            if nbu not in (2, 3):
+                if r[0] != "raise":
+                    okq = False
+                    detail = "a %d-bit frame is not refused: %r" % (
+                        8 * nbu, r)
+                continue
+            opt = (usp["opt_16"] if nbu == 2 else usp["opt_24"]) | (
+                usp["opt_twice_bit"] if tw else 0)
+            b = [Sym("b%d" % k) for k in range(nbu)]
+            if nbu == 2:
+                want = (Word({1: opt}), Word({1: b[0], 0: b[1]}))
+            else:
+                want = (Word({1: opt, 0: b[0]}), Word({1: b[1], 0: b[2]}))
+            got = tuple(Word.of(x) for x in r[1]) if r[0] == "return" and \
+                isinstance(r[1], (tuple, list)) and len(r[1]) == 2 else None
+            if got != want:
+                okq = False
+                detail = "for a %d-bit%s command the registers are %r, " \
+                    "expected %r" % (8 * nbu, " send-twice" if tw else "",
+                                     r[1] if r else None, want)
+    run.ob("R-WIRE-LEGACY", UNI + ".UnipiDALIDriver.construct", okq,
+           "register pair (options | address, command bytes) per frame "
+           "size and send-twice flag; %s" % detail, where(mod, fn))
 
 
 def _legacy_hasseb_extract(run, repo, world, folder, c):
